@@ -206,6 +206,46 @@ theorem recover_total (C : Curve) (sig : Sig) (z : Bytes) (cid : Int) :
           simp only [Option.getD_some, fillBytes?, h1, h2, if_true]
           split <;> simp
 
+/-- What a successful recovery means: V normalised to 27/28, R and S fit 32 bytes, and the library
+    recovered a public key from exactly those values over exactly that digest; the result is its address. -/
+theorem recoverDirect_ok {C : Curve} {sig : Sig} {z : Bytes} {cid : Int} {a : Bytes}
+    (h : recoverDirect C sig z cid = .ok a) :
+    ∃ (vB r s : Int) (P : C.Pub), getVNormalized sig.V cid = .ok vB ∧ (vB = 27 ∨ vB = 28) ∧
+      sig.R = some r ∧ sig.S = some s ∧ 0 ≤ r ∧ r < 2 ^ 256 ∧ 0 ≤ s ∧ s < 2 ^ 256 ∧
+      C.recoverCompact vB.toNat (toBE 32 r.toNat) (toBE 32 s.toNat) z = some P ∧ a = addressOf C P := by
+  unfold recoverDirect at h
+  cases hg : getVNormalized sig.V cid with
+  | panic => rw [hg] at h; cases h
+  | err => rw [hg] at h; cases h
+  | ok vB =>
+    rw [hg] at h
+    simp only [] at h
+    split at h
+    · cases h
+    · rename_i hrs
+      simp only [Bool.not_eq_true', Bool.and_eq_false_iff, not_or, Bool.not_eq_false] at hrs
+      cases hRv : sig.R with
+      | none => rw [hRv] at hrs; simp [rsOK] at hrs
+      | some r =>
+        cases hSv : sig.S with
+        | none => rw [hSv] at hrs; simp [rsOK] at hrs
+        | some s =>
+          rw [hRv, hSv] at hrs h
+          simp only [rsOK, Bool.and_eq_true, decide_eq_true_eq] at hrs
+          have e : (256 : Nat) ^ 32 = 2 ^ 256 := by decide
+          have h1 : r.toNat < 256 ^ 32 := by omega
+          have h2 : s.toNat < 256 ^ 32 := by omega
+          simp only [Option.getD_some, fillBytes?, h1, h2, if_true] at h
+          have hvB : vB = 27 ∨ vB = 28 := by
+            cases hV : sig.V with
+            | none => rw [hV] at hg; simp [getVNormalized, checksInt64] at hg
+            | some V => rw [hV] at hg; exact (vnorm_accept_char hg).2.1
+          split at h
+          · rename_i P hP
+            injection h with h
+            exact ⟨vB, r, s, P, rfl, hvB, rfl, rfl, hrs.1.1, hrs.1.2, hrs.2.1, hrs.2.2, hP, h.symm⟩
+          · cases h
+
 /-- The address of a key is the last 20 bytes of keccak256 of its uncompressed public key (X ‖ Y). -/
 theorem addr_def (C : Curve) (k : Nat) :
     keyAddress C k = (Prim.keccak256 (C.ser (C.pub k))).drop 12 := rfl
